@@ -136,14 +136,14 @@ pub fn run_history(prefix: &[Op], hist: &[Op], cfg: &Config, st: &mut Stats) -> 
             if got != model.committed {
                 return Some(("committed_content_differs".into(), format!("after step {i} {op:?}: a fresh searcher holds {} but the model has {}", show_docs(&got), show_docs(&model.committed))));
             }
-            let searcher = h.index.reader().ok()?.searcher();
+            let searcher = crate::orv!(h.index.reader(), "h.index.reader()").searcher();
             if let Err((r, w)) = check_all_segments(&searcher, &field, asc, st) {
                 return Some((r, format!("after step {i} {op:?}: {w}")));
             }
             // sort values stay attached to the right document
             for (ord, seg) in searcher.segment_readers().iter().enumerate() {
-                let ids = seg.fast_fields().u64("id").ok()?;
-                let sv = seg.fast_fields().i64("sv").ok()?;
+                let ids = crate::orv!(seg.fast_fields().u64("id"), "seg.fast_fields().u64( id )");
+                let sv = crate::orv!(seg.fast_fields().i64("sv"), "seg.fast_fields().i64( sv )");
                 for d in seg.doc_ids_alive() {
                     let id = ids.first(d)?;
                     if sv.first(d) != sort_base(id) {
@@ -189,8 +189,8 @@ pub fn check_merge_case(c: &MergeCase, st: &mut Stats) -> Option<(String, String
     let sbf = sb.add_bytes_field("sb", FAST);
     let schema = sb.build();
     let settings = IndexSettings { sort_by_field: Some(IndexSortByField { field: c.field.clone(), order: if c.asc { Order::Asc } else { Order::Desc } }), ..IndexSettings::default() };
-    let index = Index::builder().schema(schema.clone()).settings(settings).create_in_ram().ok()?;
-    let mut w: IndexWriter = index.writer_with_num_threads(1, 15_000_000).ok()?;
+    let index = crate::orv!(Index::builder().schema(schema.clone()).settings(settings).create_in_ram(), "Index::builder().schema(schema.clone()).settings(s");
+    let mut w: IndexWriter = crate::orv!(index.writer_with_num_threads(1, 15_000_000), "index.writer_with_num_threads(1 15_000_000)");
     w.set_merge_policy(Box::new(tantivy::merge_policy::NoMergePolicy));
     let mut k = 0u64;
     let mut all_vals: Vec<Option<i64>> = vec![];
@@ -208,29 +208,38 @@ pub fn check_merge_case(c: &MergeCase, st: &mut Stats) -> Option<(String, String
                 d.add_bytes(sbf, &[(v + 2) as u8][..]);
             }
             all_vals.push(value_of(sym));
-            w.add_document(d).ok()?;
+            crate::orv!(w.add_document(d), "w.add_document(d)");
             k += 1;
         }
         if !seg.is_empty() {
-            w.commit().ok()?;
+            crate::orv!(w.commit(), "w.commit()");
         }
     }
     if !c.deleted.is_empty() {
         for &d in &c.deleted {
             w.delete_term(Term::from_field_u64(id, d as u64));
         }
-        w.commit().ok()?;
+        crate::orv!(w.commit(), "w.commit()");
     }
-    let check = |stage: &str, st: &mut Stats| -> Option<(String, String)> {
-        let searcher = index.reader().ok()?.searcher();
+    let check_on = |index: &Index, stage: &str, st: &mut Stats| -> Option<(String, String)> {
+        let searcher = match index.reader() {
+            Ok(r) => r.searcher(),
+            Err(e) => return Some(("sorted_index_unreadable".into(), format!("{stage}: reader: {e:?}"))),
+        };
         if let Err((r, w)) = check_all_segments(&searcher, &c.field, c.asc, st) {
             return Some((r, format!("{stage}: {w}")));
         }
         // content: alive ids, stored text, sort value and postings attached to the right id
         let mut seen = vec![];
         for (ord, seg) in searcher.segment_readers().iter().enumerate() {
-            let ids = seg.fast_fields().u64("id").ok()?;
-            let svc = seg.fast_fields().i64("sv").ok()?;
+            let ids = match seg.fast_fields().u64("id") {
+                Ok(c) => c,
+                Err(e) => return Some(("sorted_index_unreadable".into(), format!("{stage}: fast field id: {e:?}"))),
+            };
+            let svc = match seg.fast_fields().i64("sv") {
+                Ok(c) => c,
+                Err(e) => return Some(("sorted_index_unreadable".into(), format!("{stage}: fast field sv: {e:?}"))),
+            };
             for d in seg.doc_ids_alive() {
                 use tantivy::schema::document::Value as _;
                 let i = ids.first(d)? as usize;
@@ -238,13 +247,19 @@ pub fn check_merge_case(c: &MergeCase, st: &mut Stats) -> Option<(String, String
                 if svc.first(d) != all_vals[i] {
                     return Some(("sort_value_attached_to_wrong_document".into(), format!("{stage}: doc id {i} has sv {:?}, added with {:?}", svc.first(d), all_vals[i])));
                 }
-                let stored: TantivyDocument = searcher.doc(tantivy::DocAddress::new(ord as u32, d)).ok()?;
+                let stored: TantivyDocument = match searcher.doc(tantivy::DocAddress::new(ord as u32, d)) {
+                    Ok(x) => x,
+                    Err(e) => return Some(("sorted_index_unreadable".into(), format!("{stage}: stored document of doc id {i}: {e:?}"))),
+                };
                 let t = stored.get_first(txt).and_then(|v| v.as_str().map(|s| s.to_string()));
                 if t.as_deref() != Some(format!("t{i} common").as_str()) {
                     return Some(("stored_field_attached_to_wrong_document".into(), format!("{stage}: doc id {i} has stored text {t:?}")));
                 }
                 let q = tantivy::query::TermQuery::new(Term::from_field_text(txt, &format!("t{i}")), IndexRecordOption::Basic);
-                let hits = searcher.search(&q, &tantivy::collector::DocSetCollector).ok()?;
+                let hits = match searcher.search(&q, &tantivy::collector::DocSetCollector) {
+                    Ok(x) => x,
+                    Err(e) => return Some(("sorted_index_unreadable".into(), format!("{stage}: search: {e:?}"))),
+                };
                 if hits.len() != 1 || !hits.contains(&tantivy::DocAddress::new(ord as u32, d)) {
                     return Some(("postings_attached_to_wrong_document".into(), format!("{stage}: term t{i} matches {hits:?}, the document is at ({ord}, {d})")));
                 }
@@ -257,10 +272,23 @@ pub fn check_merge_case(c: &MergeCase, st: &mut Stats) -> Option<(String, String
         }
         None
     };
+    let check = |stage: &str, st: &mut Stats| check_on(&index, stage, st);
     if let Some(v) = check("before the merge", st) {
         return Some(v);
     }
-    let ids: Vec<SegmentId> = index.searchable_segment_ids().ok()?;
+    let ids: Vec<SegmentId> = crate::orv!(index.searchable_segment_ids(), "index.searchable_segment_ids()");
+    // the same segments merged into a new index by merge_indices (another call site of the merger)
+    if ids.len() >= 2 {
+        match tantivy::indexer::merge_indices(&[index.clone()], tantivy::directory::RamDirectory::create()) {
+            Ok(merged) => {
+                st.count("sorted_merge_indices");
+                if let Some((r, w)) = check_on(&merged, "merge_indices into a new index", st) {
+                    return Some((r, w));
+                }
+            }
+            Err(e) => return Some(("merge_failed".into(), format!("merge_indices: {e:?}"))),
+        }
+    }
     if ids.len() >= 2 {
         if let Err(e) = w.merge(&ids).wait() {
             return Some(("merge_failed".into(), format!("{e:?}")));
@@ -270,7 +298,7 @@ pub fn check_merge_case(c: &MergeCase, st: &mut Stats) -> Option<(String, String
             return Some(v);
         }
     }
-    w.wait_merging_threads().ok()?;
+    crate::orv!(w.wait_merging_threads(), "w.wait_merging_threads()");
     None
 }
 
@@ -327,7 +355,9 @@ pub fn run(ctx: &Ctx) -> Report {
     let prefixes: Vec<Vec<Op>> = vec![
         vec![],
         vec![Op::AddA, Op::AddB, Op::AddA, Op::AddB, Op::Commit],
-        vec![Op::AddA, Op::AddB, Op::AddA, Op::Commit, Op::AddB, Op::AddA, Op::AddA, Op::AddB, Op::Commit],
+        // (the writer, and the Index itself, are re-opened from the directory after the first commit: the sort
+        // settings of everything written afterwards come from meta.json)
+        vec![Op::AddA, Op::AddB, Op::AddA, Op::Commit, Op::Reopen, Op::AddB, Op::AddA, Op::AddA, Op::AddB, Op::Commit],
     ];
     let mut work: Vec<W> = vec![];
     let fields: Vec<&str> = if thorough { SORT_FIELDS.to_vec() } else { vec!["sv", "ss"] };
